@@ -17,7 +17,8 @@ import (
 
 type c12Case struct {
 	Kind   string       `json:"kind"`
-	Whites [][2]float32 `json:"whites_xy"`
+	Whites [][2]float32 `json:"whites_xy,omitempty"`
+	XYZ    [][3]float32 `json:"whites_xyz,omitempty"`
 	Colour *[3]float32  `json:"colour,omitempty"`
 }
 
@@ -209,6 +210,32 @@ func c12Pair(a, b [2]float32) (kind, msg string, werr, merr float64) {
 	return "", "ok", werr, merr
 }
 
+// c12PairXYZ checks the XYZ constructor on arbitrary positive XYZ whites
+// (including unequal luminance and nearly coincident whites).
+func c12PairXYZ(a, b [3]float32) (kind, msg string) {
+	aX, bX := ciexyz.Color{X: a[0], Y: a[1], Z: a[2]}, ciexyz.Color{X: b[0], Y: b[1], Z: b[2]}
+	ca, pan := c12Call(func() ciexyz.ChromaticAdaptation { return ciexyz.AdaptBetweenXYZWhitePoints(aX, bX) })
+	if pan != nil {
+		return "panic", fmt.Sprintf("AdaptBetweenXYZWhitePoints(%v,%v) panicked: %v", a, b, pan)
+	}
+	m := libMat(matrix.Matrix3(ca))
+	ref := refcolor.Bradford(xyzVec(aX), xyzVec(bX))
+	if d := m.MaxAbsDiff(ref); !(d <= 1e-6*math.Max(1, ref.NormInf())) {
+		return "matrix-xyz", fmt.Sprintf("XYZ adaptation %v -> %v differs from the float64 Bradford matrix by %.3g\n got %v\n ref %v", a, b, d, m, ref)
+	}
+	got, want := xyzVec(ca.Apply(aX)), xyzVec(bX)
+	for i := 0; i < 3; i++ {
+		if !(math.Abs(got[i]-want[i]) <= 1e-6*math.Max(1, math.Abs(want[i]))) {
+			return "white-xyz", fmt.Sprintf("XYZ adaptation %v -> %v maps the source white to %v", a, b, got)
+		}
+	}
+	back := libMat(matrix.Matrix3(ciexyz.AdaptBetweenXYZWhitePoints(bX, aX)))
+	if d := back.Mul(m).MaxAbsDiff(refcolor.Identity()); !(d <= 1e-9*math.Max(1, back.NormInf()*m.NormInf())) {
+		return "inverse-xyz", fmt.Sprintf("XYZ (%v -> %v) after (%v -> %v) differs from the identity by %.3g", b, a, a, b, d)
+	}
+	return "", "ok"
+}
+
 func c12Triple(a, b, c [2]float32) (kind, msg string) {
 	ab := libMat(matrix.Matrix3(ciexyz.AdaptBetweenXYYWhitePoints(xyy(a), xyy(b))))
 	bc := libMat(matrix.Matrix3(ciexyz.AdaptBetweenXYYWhitePoints(xyy(b), xyy(c))))
@@ -260,6 +287,55 @@ func runC12(r *core.Run) {
 	}
 	r.Obs("max_white_to_white_error", we)
 	r.Obs("max_matrix_entry_error_vs_float64_bradford", me)
+	// nearly coincident whites (a "close enough, return identity" shortcut must not exist) and
+	// arbitrary XYZ whites through the XYZ constructor
+	{
+		rg := core.NewRNG(r.Seed, "C12", "near")
+		var n, nt int64
+		for _, w := range ws {
+			for _, d := range []float32{1e-7, 3e-7, 1e-6, 1e-5, 3e-5, 1e-4, 3e-4, 1e-3, 3e-3} {
+				for _, dir := range [][2]float32{{1, 0}, {0, 1}, {-1, 1}, {1, 1}} {
+					b := [2]float32{w[0] + d*dir[0], w[1] + d*dir[1]}
+					if b == w || !c12Valid(b[0], b[1]) {
+						continue
+					}
+					n++
+					nt++
+					if kind, msg, _, _ := c12Pair(w, b); kind != "" {
+						r.Violate("pair", kind+"/near", msg, c12Case{Kind: kind, Whites: [][2]float32{w, b}})
+					}
+				}
+			}
+			// XYZ constructor: same chromaticity region, luminance 0.5..1.5, plus tiny XYZ perturbations
+			ax := ciexyz.ColorFromXYY(ciexyy.Color{X: w[0], Y: w[1], YY: float32(rg.Uniform(0.5, 1.5))})
+			w2 := ws[rg.Intn(len(ws))]
+			bx := ciexyz.ColorFromXYY(ciexyy.Color{X: w2[0], Y: w2[1], YY: float32(rg.Uniform(0.5, 1.5))})
+			a3, b3 := [3]float32{ax.X, ax.Y, ax.Z}, [3]float32{bx.X, bx.Y, bx.Z}
+			pairs := [][2][3]float32{{a3, b3}}
+			for _, d := range []float32{1e-6, 2e-5, 5e-5, 9e-5, 5e-4} {
+				pairs = append(pairs, [2][3]float32{a3, {a3[0] + d, a3[1], a3[2] - d}}, [2][3]float32{a3, {a3[0], a3[1] + d, a3[2]}})
+			}
+			for _, pr := range pairs {
+				n++
+				nt++
+				if kind, msg := c12PairXYZ(pr[0], pr[1]); kind != "" {
+					r.Violate("pairxyz", kind, msg, c12Case{Kind: kind, XYZ: [][3]float32{pr[0], pr[1]}})
+				}
+			}
+		}
+		// the library's own tabulated whites against the xyY-derived ones
+		for _, pr := range [][2]ciexyz.Color{{ciexyz.D65, ciexyz.ColorFromXYY(ciexyy.D65)}, {ciexyz.D50, ciexyz.ColorFromXYY(ciexyy.D50)}, {ciexyz.D50, ciexyz.D65}, {ciexyz.D65, ciexyz.D50}} {
+			a3, b3 := [3]float32{pr[0].X, pr[0].Y, pr[0].Z}, [3]float32{pr[1].X, pr[1].Y, pr[1].Z}
+			n++
+			nt++
+			if kind, msg := c12PairXYZ(a3, b3); kind != "" {
+				r.Violate("pairxyz", kind, msg, c12Case{Kind: kind, XYZ: [][3]float32{a3, b3}})
+			}
+		}
+		r.AddEvals(n)
+		r.NTCount(nt)
+		r.Obs("near_and_xyz_pairs", n)
+	}
 	shards := 16
 	core.ParallelFor(shards, 16, func(sh int) {
 		rg := core.NewRNG(r.Seed, "C12", "triples", fmt.Sprint(sh))
@@ -285,6 +361,10 @@ func replayC12(stage string, raw json.RawMessage) (bool, string, error) {
 	var cs c12Case
 	if err := json.Unmarshal(raw, &cs); err != nil {
 		return false, "", err
+	}
+	if stage == "pairxyz" && len(cs.XYZ) == 2 {
+		k, m := c12PairXYZ(cs.XYZ[0], cs.XYZ[1])
+		return k != "", m, nil
 	}
 	if stage == "triple" && len(cs.Whites) == 3 {
 		k, m := c12Triple(cs.Whites[0], cs.Whites[1], cs.Whites[2])
